@@ -33,12 +33,13 @@ Arguments RErr {A}.
 
 (* ---- the file system as the report sees it ------------------------------------------- *)
 
-(* arena_buffer_read with the ENOENT distinction report_comment makes *)
+(* what reading a file gives: FAbsent = it does not exist (open and stat fail with ENOENT); FUnreadable = it
+   is there (stat succeeds, non-zero size) but cannot be read (a directory, no permission); FData = its bytes *)
 Inductive fread := FAbsent | FUnreadable | FData (b : bytes).
 
 Record files := mkfiles {
-  f_log : bytes -> option bytes;            (* <builddir>/<log field>; None = cannot be read *)
-  f_tmp : bytes -> option bytes;            (* <tmp-dir>/<name>; None = cannot be read (stat fails too) *)
+  f_log : bytes -> fread;                   (* <builddir>/<log field> *)
+  f_tmp : bytes -> fread;                   (* <tmp-dir>/<name> *)
   f_comment : fread;                        (* ${comment-path} *)
   f_tags : option bytes;                    (* ${tags-path} *)
   f_target : option bytes;                  (* <builddir>/target *)
@@ -58,6 +59,44 @@ Record cfgview := mkcfg {
   c_canvas_name : bytes;
   c_machine : bytes;
 }.
+
+(* ---- the places where report.c has had more than one form --------------------------------------- *)
+
+(* Every function below that depends on such a place takes the forms as a [switches] value.  [cur_sw] is what the
+   translator found in the working tree (Gen_Report); the un-suffixed names ([step_log], [report_struct_rows],
+   [report_main] ...) are the model of the source as it is.  The theorems of ReportProofs / ReportNeverHidden are
+   proved for [fixed_sw]; Properties_C05.v states them for the un-suffixed names, which type-checks exactly when
+   [cur_sw] computes to [fixed_sw]. *)
+Record switches := mksw {
+  sw_excerpt_copies : bool;     (* report_step_log copies the excerpt (true) / prints it with "%.*s" (D14) *)
+  sw_canvas_copies : bool;      (* canvas_report_step_log copies the log / prints it with "%s" (D14) *)
+  sw_cvs_missing : bool;        (* report_cvs_log passes over a cvs log that does not exist / fails (D18) *)
+  sw_log_missing : bool;        (* report_step_log: a log that does not exist is an empty log / an error (D24) *)
+  sw_canvas_missing : bool;     (* canvas_report_step_log: same *)
+  sw_regress_missing : bool;    (* regress_report_step_log: same *)
+  sw_cvs_logs : list (mode * bytes);   (* the table of report_cvs_log *)
+}.
+
+Definition cur_sw : switches :=
+  mksw excerpt_copies_bytes canvas_copies_bytes cvs_missing_skipped
+       step_log_missing_is_empty canvas_log_missing_is_empty regress_log_missing_is_empty cvs_logs.
+
+Definition cvs_table_robsd_ports : list (mode * bytes) := Eval vm_compute in
+  [(Robsd, bs "cvs-src-up.log"%string); (Robsd, bs "cvs-src-ci.log"%string);
+   (Robsd, bs "cvs-xenocara-up.log"%string); (Robsd, bs "cvs-xenocara-ci.log"%string);
+   (Ports, bs "cvs-ports-up.log"%string); (Ports, bs "cvs-ports-ci.log"%string)].
+Definition cvs_table_regress : list (mode * bytes) := Eval vm_compute in
+  [(Regress, bs "cvs-src-up.log"%string); (Regress, bs "cvs-src-ci.log"%string)].
+
+(* the source the theorems are about: every repair in place, the regress rows in the cvs table (D25) *)
+Definition fixed_sw : switches := mksw true true true true true true (cvs_table_robsd_ports ++ cvs_table_regress).
+(* the source before D24 was repaired: a log that does not exist takes the report down *)
+Definition sw_before_d24 : switches := mksw true true true false false false (cvs_table_robsd_ports ++ cvs_table_regress).
+(* the source before D25: no regress rows in the cvs table *)
+Definition sw_before_d25 : switches := mksw true true true true true true cvs_table_robsd_ports.
+(* the source before D18 / before D14 *)
+Definition sw_before_d18 : switches := mksw true true false true true true (cvs_table_robsd_ports ++ cvs_table_regress).
+Definition sw_before_d14 : switches := mksw false false true true true true (cvs_table_robsd_ports ++ cvs_table_regress).
 
 (* ---- small helpers -------------------------------------------------------------------- *)
 
@@ -116,14 +155,15 @@ Fixpoint only_trace (start : bool) (c : bytes) : bool :=
 
 Definition is_log_empty (fs : files) (r : srow) : bool :=
   match f_log fs (r_log r) with
-  | None => true
-  | Some c => only_trace true c
+  | FData c => only_trace true c
+  | _ => true                                 (* arena_buffer_read == NULL *)
   end.
 
 (* ---- cvs logs -------------------------------------------------------------------------- *)
 
-Definition cvs_names (m : mode) : list bytes :=
-  map snd (filter (fun e => mode_eqb (fst e) m) cvs_logs).
+Definition cvs_names_of (t : list (mode * bytes)) (m : mode) : list bytes :=
+  map snd (filter (fun e => mode_eqb (fst e) m) t).
+Definition cvs_names (m : mode) : list bytes := cvs_names_of cvs_logs m.
 
 (* the loop of report_cvs_log: (bytes appended, format_file failed).  [skip_missing]: a file stat(2) does not
    find is passed over like an empty one (Gen_Report.cvs_missing_skipped; /repo da850b3) - before that it made
@@ -133,19 +173,20 @@ Fixpoint cvs_loop_with (skip_missing : bool) (fs : files) (names : list bytes) (
   | [] => (out, false)
   | n :: ns =>
       match f_tmp fs n with
-      | Some [] => cvs_loop_with skip_missing fs ns ncvs out          (* stat ok, size 0 *)
-      | None =>
+      | FData [] => cvs_loop_with skip_missing fs ns ncvs out          (* stat ok, size 0 *)
+      | FAbsent =>
           if skip_missing then cvs_loop_with skip_missing fs ns ncvs out
           else ((if Nat.ltb 0 ncvs then out ++ [10] else out), true)
-      | Some b =>
+      | FUnreadable => ((if Nat.ltb 0 ncvs then out ++ [10] else out), true)     (* format_file fails *)
+      | FData b =>
           let out1 := if Nat.ltb 0 ncvs then out ++ [10] else out in
           cvs_loop_with skip_missing fs ns (S ncvs) (out1 ++ format_file b)
       end
   end.
 
-Definition cvs_loop := cvs_loop_with cvs_missing_skipped.
-
-Definition cvs_log (m : mode) (fs : files) : bytes * bool := cvs_loop fs (cvs_names m) 0 [10].
+Definition cvs_log_with (w : switches) (m : mode) (fs : files) : bytes * bool :=
+  cvs_loop_with (sw_cvs_missing w) fs (cvs_names_of (sw_cvs_logs w) m) 0 [10].
+Definition cvs_log := cvs_log_with cur_sw.
 
 (* ---- which rows get a section ------------------------------------------------------------ *)
 
@@ -163,8 +204,8 @@ Definition regress_skip_step (cfg : cfgview) (fs : files) (r : srow) : skipres :
   else match r_log r with
        | [] => SkErr                                            (* missing mandatory log field *)
        | l => match f_log fs l with
-              | None => SkOmit                                  (* regress_log_peek < 0 *)
-              | Some c => if Nat.ltb 0 (peek fl_peek c) then SkShow else SkOmit
+              | FData c => if Nat.ltb 0 (peek fl_peek c) then SkShow else SkOmit
+              | _ => SkOmit                                     (* regress_log_peek < 0 *)
               end
        end.
 
@@ -188,37 +229,40 @@ Definition skip_step (m : mode) (cfg : cfgview) (fs : files) (r : srow) : skipre
 
 Inductive logres := LHandled (b : bytes) | LUnhandled | LError.
 
-Definition ports_step_log (fs : files) (r : srow) : logres :=
+Definition ports_step_log (w : switches) (fs : files) (r : srow) : logres :=
   if beq (r_name r) name_cvs then
-    (let '(b, e) := cvs_log Ports fs in if e then LError else LHandled b)
+    (let '(b, e) := cvs_log_with w Ports fs in if e then LError else LHandled b)
   else if beq (r_name r) name_dpb && (r_exit r =? 0)%Z then
     match f_tmp fs packages_diff with
-    | None => LError
-    | Some b => LHandled (10 :: format_file b)
+    | FData b => LHandled (10 :: format_file b)
+    | _ => LError                                                (* format_file fails *)
     end
   else LUnhandled.
 
-Definition regress_step_log (cfg : cfgview) (fs : files) (r : srow) : logres :=
+(* [sw_regress_missing]: stat(log_path) == -1 && errno == ENOENT -> STEP_LOG_UNHANDLED, before the log is parsed *)
+Definition regress_step_log (w : switches) (cfg : cfgview) (fs : files) (r : srow) : logres :=
   match r_log r with
   | [] => LError
   | l =>
       match f_log fs l with
-      | None => LError                                          (* regress_log_parse < 0 *)
-      | Some c =>
+      | FAbsent => if sw_regress_missing w then LUnhandled else LError
+      | FUnreadable => LError                                   (* regress_log_parse < 0 *)
+      | FData c =>
           let '(n, out) := parse (fl_log (is_regress_quiet cfg (r_name r))) c [] in
           if Nat.ltb 0 n then LHandled (10 :: out) else LUnhandled
       end
   end.
 
-(* "\n%s" on buffer_str(bf) ([copies] = false), or the bytes copied with
-   buffer_puts ([copies] = true); which one report.c has is Gen_Report.canvas_copies_bytes *)
-Definition canvas_step_log_with (copies : bool) (fs : files) (r : srow) : logres :=
+(* "\n%s" on buffer_str(bf) ([sw_canvas_copies] = false), or the bytes copied with buffer_puts (true);
+   a log that does not exist: one newline ([sw_canvas_missing], errno == ENOENT) or an error *)
+Definition canvas_step_log (w : switches) (fs : files) (r : srow) : logres :=
   match r_log r with
   | [] => LUnhandled
   | l =>
       match f_log fs l with
-      | None => LError
-      | Some c => LHandled (10 :: (if copies then c else cstr c))
+      | FAbsent => if sw_canvas_missing w then LHandled [10] else LError
+      | FUnreadable => LError
+      | FData c => LHandled (10 :: (if sw_canvas_copies w then c else cstr c))
       end
   end.
 
@@ -233,60 +277,65 @@ Definition excerpt_with (copies : bool) (c : bytes) : bytes :=
   | [] => []
   end.
 
-(* the part of report_step_log after the mode specific handlers *)
-Definition generic_step_log_with (ce : bool) (m : mode) (fs : files) (r : srow) : result bytes :=
-  if beq (r_name r) name_cvs then ROk (fst (cvs_log m fs))      (* report_cvs_log(r) < 0 never holds *)
+(* the part of report_step_log after the mode specific handlers; a log that does not exist: one newline
+   ([sw_log_missing], errno == ENOENT) or an error *)
+Definition generic_step_log (w : switches) (m : mode) (fs : files) (r : srow) : result bytes :=
+  if beq (r_name r) name_cvs then ROk (fst (cvs_log_with w m fs))      (* report_cvs_log(r) < 0 never holds: STEP_LOG_ERROR is 3 *)
   else match r_log r with
        | [] => ROk []
        | l => match f_log fs l with
-              | None => RErr
-              | Some c => ROk (excerpt_with ce c)
+              | FAbsent => if sw_log_missing w then ROk [10] else RErr
+              | FUnreadable => RErr
+              | FData c => ROk (excerpt_with (sw_excerpt_copies w) c)
               end
        end.
 
-Definition step_log_with (ce cc : bool) (m : mode) (cfg : cfgview) (fs : files) (r : srow) : result bytes :=
+Definition step_log_with (w : switches) (m : mode) (cfg : cfgview) (fs : files) (r : srow) : result bytes :=
   let rv := match m with
-            | Ports => ports_step_log fs r
-            | Regress => regress_step_log cfg fs r
-            | Canvas => canvas_step_log_with cc fs r
+            | Ports => ports_step_log w fs r
+            | Regress => regress_step_log w cfg fs r
+            | Canvas => canvas_step_log w fs r
             | _ => LUnhandled
             end in
   match rv with
   | LError => RErr
   | LHandled b => ROk b
-  | LUnhandled => generic_step_log_with ce m fs r
+  | LUnhandled => generic_step_log w m fs r
   end.
 
 (* report_step_log as report.c has it now *)
-Definition step_log : mode -> cfgview -> files -> srow -> result bytes :=
-  step_log_with excerpt_copies_bytes canvas_copies_bytes.
+Definition step_log : mode -> cfgview -> files -> srow -> result bytes := step_log_with cur_sw.
 
 (* ---- sections --------------------------------------------------------------------------------- *)
 
 Record section := mksec {
   s_name : bytes; s_exit : Z; s_duration : bytes; s_log : bytes; s_body : bytes }.
 
-(* report_steps *)
-Fixpoint steps_loop (m : mode) (cfg : cfgview) (fs : files) (rows : list srow) : result (list section) :=
+(* report_steps; [dur] is the text of the Duration: line of a row ([step_duration] in report.c - a parameter so that
+   C18's oracle can put the specified text there and leave everything else to the model) *)
+Fixpoint steps_loop_gen (w : switches) (dur : srow -> bytes) (m : mode) (cfg : cfgview) (fs : files) (rows : list srow)
+  : result (list section) :=
   match rows with
   | [] => ROk []
   | r :: rs =>
-      if row_skipped (r_skip r) then steps_loop m cfg fs rs
+      if row_skipped (r_skip r) then steps_loop_gen w dur m cfg fs rs
       else
         match (if omit_candidate (r_exit r) then skip_step m cfg fs r else SkShow) with
-        | SkOmit => steps_loop m cfg fs rs
+        | SkOmit => steps_loop_gen w dur m cfg fs rs
         | SkErr => RErr
         | SkShow =>
-            match step_log m cfg fs r with
+            match step_log_with w m cfg fs r with
             | RErr => RErr
             | ROk body =>
-                match steps_loop m cfg fs rs with
+                match steps_loop_gen w dur m cfg fs rs with
                 | RErr => RErr
-                | ROk ss => ROk (mksec (r_name r) (cast_int (r_exit r)) (step_duration r) (r_log r) body :: ss)
+                | ROk ss => ROk (mksec (r_name r) (cast_int (r_exit r)) (dur r) (r_log r) body :: ss)
                 end
             end
         end
   end.
+Definition steps_loop_with (w : switches) := steps_loop_gen w step_duration.
+Definition steps_loop := steps_loop_with cur_sw.
 
 (* ---- status ----------------------------------------------------------------------------------- *)
 
@@ -380,25 +429,33 @@ Record Report := mkrep {
   rp_sections : list section;
 }.
 
-(* report_generate up to report_sanitize, given the parsed rows *)
-Definition report_struct_rows (m : mode) (cfg : cfgview) (rows : list srow) (fs : files) : result Report :=
+(* report_generate up to report_sanitize, given the parsed rows; [tot], [dur], [sizes]: the text of the Duration:
+   line of the stats block, of a row, and the Size: lines *)
+Definition report_struct_rows_gen (w : switches) (tot : bytes) (dur : srow -> bytes) (sizes : list bytes)
+    (m : mode) (cfg : cfgview) (rows : list srow) (fs : files) : result Report :=
   if negb (c_running cfg) then RErr                               (* ${tags-path} does not interpolate *)
   else
     match f_comment fs with
     | FUnreadable => RErr
     | cm =>
-        match steps_loop m cfg fs rows with
+        match steps_loop_gen w dur m cfg fs rows with
         | RErr => RErr
         | ROk ss =>
-            ROk (mkrep m (subject_of m cfg fs) (report_status m rows) (stats_duration m rows)
-                       (c_builddir cfg) (f_tags fs) (report_sizes m cfg fs)
+            ROk (mkrep m (subject_of m cfg fs) (report_status m rows) tot
+                       (c_builddir cfg) (f_tags fs) sizes
                        (match cm with FData b => Some (trim_lines b) | _ => None end) ss)
         end
     end.
 
+Definition report_struct_rows_with (w : switches) (m : mode) (cfg : cfgview) (rows : list srow) (fs : files) : result Report :=
+  report_struct_rows_gen w (stats_duration m rows) step_duration (report_sizes m cfg fs) m cfg rows fs.
+
+Definition report_struct_rows := report_struct_rows_with cur_sw.
+
 (* on rows of the step file model of C01 *)
-Definition report_struct (m : mode) (cfg : cfgview) (rows : list row) (fs : files) : result Report :=
-  report_struct_rows m cfg (map view rows) fs.
+Definition report_struct_with (w : switches) (m : mode) (cfg : cfgview) (rows : list row) (fs : files) : result Report :=
+  report_struct_rows_with w m cfg (map view rows) fs.
+Definition report_struct := report_struct_with cur_sw.
 
 (* ---- rendering ------------------------------------------------------------------------------------ *)
 
@@ -460,7 +517,7 @@ Definition render (host : bytes) (rep : Report) : bytes := sanitize (render_raw 
 (* robsd-report -m mode -C conf builddir: exit status and standard output
    (buffer_putc(bf, '\0'); printf("%s", ...)); [stepfile] = None when step.csv
    cannot be opened *)
-Definition report_main (m : mode) (cfg : cfgview) (host : bytes) (stepfile : option bytes) (fs : files)
+Definition report_main_with (w : switches) (m : mode) (cfg : cfgview) (host : bytes) (stepfile : option bytes) (fs : files)
   : N * bytes :=
   match stepfile with
   | None => (1, [])
@@ -468,9 +525,10 @@ Definition report_main (m : mode) (cfg : cfgview) (host : bytes) (stepfile : opt
       match parse_file content with
       | None => (1, [])
       | Some rows =>
-          match report_struct m cfg rows fs with
+          match report_struct_with w m cfg rows fs with
           | RErr => (1, [])
           | ROk rep => (0, cstr (render host rep))
           end
       end
   end.
+Definition report_main := report_main_with cur_sw.
